@@ -50,6 +50,10 @@ class Property:
     def shrink_candidates(self, case_line):
         return []
 
+    def judge_group(self, cases, impl, model):
+        """relations between cases (metamorphic checks) -> list[Finding]"""
+        return []
+
     def extra(self, ctx):
         """additional non-case-based checks; returns (findings, coverage_extra)"""
         return [], {}
@@ -85,6 +89,7 @@ def evaluate(prop, runner, lines):
                                     "%s · driver-died" % prop.id))
             continue
         findings.extend(prop.judge(l, impl[cid], model[cid]))
+    findings.extend(prop.judge_group(lines, impl, model))
     return findings, impl, model
 
 
@@ -157,7 +162,9 @@ def run_property(prop, tier, seed, replay=None):
                 all_cases = renumber(payload.get("cases", []), "r")
             else:
                 rng = random.Random(seed)
-                all_cases = renumber(prop.corpus(), "k") + renumber(prop.cases(tier, rng), "g")
+                gen_cases = prop.cases(tier, rng)
+                prop.ncases = len(gen_cases)
+                all_cases = renumber(prop.corpus(), "k") + renumber(gen_cases, "g")
             ctx = {"runner": runner, "tier": tier, "seed": seed, "replay": replay}
             if all_cases:
                 findings, impl, model = evaluate(prop, runner, all_cases)
